@@ -208,7 +208,7 @@ def gen_spec(rng, ops=None):
         "root_curve": root_curve, "isk_curve": isk_curve, "nroots": nroots, "used": rng.randrange(nroots),
         "user_data": hexs(rng.randbytes(rng.choice([0, 0, 4, 16, 36]))) if isk else "-",
         "enc": enc, "pck": rng.randbytes(rng.choice([16, 32])).hex(), "rights": rng.randrange(4),
-        "ts": rng.choice([1, 2, 0x7FFFFFFF, 0xFFFFFFFF, 0x100000000, (1 << 64) - 1, rng.getrandbits(64) or 1, rng.getrandbits(40) or 1]),
+        "ts": rng.choice([0] if rng.random() < 0.03 else [1, 2, 0x7FFFFFFF, 0xFFFFFFFF, 0x100000000, (1 << 64) - 1, rng.getrandbits(64) or 1, rng.getrandbits(40) or 1]),
         "fw": rng.choice([0, 1, 2, U32, rng.getrandbits(32)]), "flags": rng.choice([0, 0, 1, U32, rng.getrandbits(32)]),
         "desc": desc, "nxp": rng.random() < 0.2, "ops": ops if ops is not None else [],
     }
@@ -257,7 +257,7 @@ def rom_line(spec, file_bytes, enc=None, rights=None, pck=None):
             f"{int(spec['enc'] if enc is None else enc)} {rk.hex()} {hexs(file_bytes)}")
 
 
-def check_history(ck, drv, s, spec, tamper=None, builder=None, preloaded=()):
+def check_history(ck, drv, s, spec, tamper=None, builder=None, preloaded=(), build_finding=None):
     """Run one history (spec['ops']) on a real SecureBinary31 and on the model; oracle on every export.
 
     `builder(spec)` -> (SecureBinary31, cert bytes, hash length) (default: the API constructor path); `preloaded` are the
@@ -265,7 +265,7 @@ def check_history(ck, drv, s, spec, tamper=None, builder=None, preloaded=()):
     inp = spec
     built = pyres(builder or build_real, spec)
     if built[0] != "ok":
-        s.expect(False, inp, "a well-formed container specification cannot be built", built)
+        s.expect(False, inp, "a well-formed container specification cannot be built", built, finding=build_finding)
         return []
     sb, cert, hl = built[1]
     # timestamp 0 (like None) means "now": the object's own value is what header and key derivation must agree on
@@ -471,18 +471,25 @@ def gen_config(rng, spec, family, kinds, tmp):
     """configuration dictionary (what a YAML/JSON file holds) for `spec` + generated commands; -> (config, expected commands)."""
     rc = spec["root_curve"]
     cfg = {"family": family, "containerOutputFile": str(tmp / "out.sb3")}
+    # certificate block: its own configuration file (in a flat configuration `signPrivateKey` would name both the key that
+    # signs the ISK certificate and the key that signs the container)
+    cb = {"family": family, "containerOutputFile": "cert_block.bin"}
     for i in range(spec["nroots"]):
-        cfg[f"rootCertificate{i}File"] = str(KEYS / f"ecc{rc}" / f"srk{i}_ecc{rc}.pub")
-    cfg["mainRootCertId"] = spec["used"]
-    cfg["mainRootCertPrivateKeyFile"] = str(key_path(rc, f"srk{spec['used']}"))
+        cb[f"rootCertificate{i}File"] = str(KEYS / f"ecc{rc}" / f"srk{i}_ecc{rc}.pub")
+    cb["mainRootCertId"] = spec["used"]
+    cb["mainRootCertPrivateKeyFile"] = str(key_path(rc, f"srk{spec['used']}"))
     if spec["isk_curve"]:
         ic = spec["isk_curve"]
-        cfg.update(useIsk=True, signingCertificateFile=str(KEYS / f"ecc{ic}" / f"imgkey_ecc{ic}.pub"), signPrivateKey=str(key_path(ic, "imgkey")))
+        cb.update(useIsk=True, signingCertificateFile=str(KEYS / f"ecc{ic}" / f"imgkey_ecc{ic}.pub"))
         if spec["user_data"] != "-":
             (tmp / "userdata.bin").write_bytes(bytes.fromhex(spec["user_data"]))
-            cfg["signCertData"] = "userdata.bin"
+            cb["signCertData"] = "userdata.bin"
+        cfg["signPrivateKey"] = str(key_path(ic, "imgkey"))
     else:
-        cfg["useIsk"] = False
+        cb["useIsk"] = False
+        cfg["signPrivateKey"] = str(key_path(rc, f"srk{spec['used']}"))
+    (tmp / "cert_block.json").write_text(json.dumps(cb, indent=1))
+    cfg["certBlock"] = "cert_block.json"
     if spec["enc"]:
         if rng.random() < 0.5:
             (tmp / "pck.txt").write_text(spec["pck"])
@@ -528,7 +535,7 @@ def run_cli(cfg, tmp):
         out.unlink()
     r = CliRunner().invoke(nxpimage.main, ["sb31", "export", "-c", str(path)])
     if r.exit_code != 0 or not out.exists():
-        raise RuntimeError(f"nxpimage sb31 export: exit {r.exit_code}: {(r.output or '')[-300:]} {r.exception!r}")
+        return f"nxpimage sb31 export: exit {r.exit_code}: {(r.output or '')[-300:]} {r.exception!r}"
     return out.read_bytes()
 
 
@@ -544,11 +551,11 @@ def run_config_case(ck, drv, sg, spec):
             (tmp / name).write_bytes(bytes.fromhex(hx))
         cfg = dict(spec["cfg"], containerOutputFile=str(tmp / "out.sb3"))
         expected = [list(c) for c in spec["cfg_expected"]]
-        files = check_history(ck, drv, sg, spec, builder=build_from_config(cfg, tmp), preloaded=expected)
+        files = check_history(ck, drv, sg, spec, builder=build_from_config(cfg, tmp), preloaded=expected, build_finding=spec.get("cfg_finding"))
         if spec.get("cfg_cli") and files and drv is not None:
             ref, hl, total = files[0]
             res = pyres(run_cli, cfg, tmp)
-            if not sg.expect(res[0] == "ok", (spec, "cli"), "nxpimage sb31 export fails on a configuration that load_from_config accepts", res):
+            if not sg.expect(res[0] == "ok" and isinstance(res[1], bytes), (spec, "cli"), "nxpimage sb31 export fails on a configuration that load_from_config accepts", res):
                 return
             data = res[1]
             rom = parse_rom(drv.ask(rom_line(spec, data)))
@@ -631,6 +638,8 @@ def run(ck, only=None):
     for t in bad:
         so.note(t, cls=t[0])
         res = pyres(lambda: mk_cmd(t).export())
+        if t[0] == "fuses" and int(t[1]) <= U32 and res[0] == "E:spsdk":
+            continue  # partial fuse words refused outright (proposed_fixes/C05-3.diff): outside the model's domain, nothing to compare
         if drv is not None:
             so.compare(t, "ok:" + res[1].hex() if res[0] == "ok" else res[0], drv.ask("enc " + " ".join(t)),
                        "out-of-range command: implementation and model disagree")
@@ -671,7 +680,7 @@ def run(ck, only=None):
                    "block hash, payload): the ROM model must refuse it or a signature obligation must fail; a loader with different access rights must not decode the same commands; "
                    "non-trivial = distinct (file, position)")
     targets = [16 * k for k in range(1, 52)]  # 16 .. 816: every 16-byte residue through three blocks (256, 512, 768 boundaries +- 16)
-    n_rand = ck.budget(250, 8000)
+    n_rand = ck.budget(400, 8000)
     plan = [("boundary", t) for t in targets] + [("random", None)] * n_rand + [("big", None)] * ck.budget(6, 200)
     if not ck.quick:
         plan += [("boundary", t) for t in targets] * 12
@@ -713,7 +722,7 @@ def run(ck, only=None):
     import shutil
     import tempfile
     from pathlib import Path
-    n_cfg, n_cli = ck.budget(42, 1400), ck.budget(6, 120)
+    n_cfg, n_cli = ck.budget(70, 1400), ck.budget(14, 120)
     for n in range(n_cfg):
         family = rng.choice(sorted(CFG_FAMILIES))
         cli = n < n_cli
@@ -732,6 +741,52 @@ def run(ck, only=None):
             shutil.rmtree(tmp, ignore_errors=True)
         sg.note(spec, cls=f"{'cli' if cli else 'api'}/{family}/{kinds[0]}")
         run_config_case(ck, drv, sg, spec)
+    # ---------------- 5. edges of the domain
+    se = ck.stream("domain_edges", "PROGRAM_FUSES data that is not a whole number of words (API): the command must be refused (SPSDKError) or decode "
+                   "to the data supplied [open finding C05-fuses-partial-word]; schema-valid configurations that leave out the optional memory ids of "
+                   "copy / configureMemory must load with memory id 0 [open finding C05-cfg-optional-memid]; timestamp 0 (= now) containers are "
+                   "consistent (also sampled in `histories`); non-trivial = distinct case")
+    for n in (1, 2, 3, 5, 6, 7, 17, 18, 19, 21):
+        spec = gen_spec(rng, ops=[])
+        t = ["fuses", "16", hexs(rng.randbytes(n))]
+        tail = ["execute", "4096"]
+        se.note((spec, t), cls="fuses-partial-word")
+        built = pyres(build_real, spec)
+        if built[0] != "ok" or drv is None:
+            continue
+        sb = built[1][0]
+        r = pyres(lambda: (sb.sb_commands.add_command(mk_cmd(t)), sb.sb_commands.add_command(mk_cmd(tail))))
+        if r[0] == "E:spsdk":
+            continue  # refused: fine
+        res = pyres(sb.export)
+        if not se.expect(res[0] == "ok", (spec, t), "export raises for PROGRAM_FUSES data that was accepted by the constructor", res):
+            continue
+        rom = parse_rom(drv.ask(rom_line(dict(spec, ts=int(sb.timestamp)), res[1])))
+        se.expect(rom is not None and rom["cmds"] == [" ".join(t), " ".join(tail)], (spec, t),
+                  "PROGRAM_FUSES data that is not a whole number of 32-bit words decodes to other commands than supplied",
+                  None if rom is None else rom["cmds"], [" ".join(t), " ".join(tail)], finding="C05-fuses-partial-word")
+    for n in range(ck.budget(4, 24)):
+        family = rng.choice(sorted(CFG_FAMILIES))
+        spec = gen_spec(rng, ops=[["export"]])
+        spec["nxp"] = False
+        if spec["ts"] == 0:
+            spec["ts"] = 1
+        tmp = Path(tempfile.mkdtemp(prefix="c05gen-", dir=os.environ.get("VERIF_SCRATCH") or None))
+        try:
+            cfg, expected = gen_config(rng, spec, family, ["copy", "cfgmem"], tmp)
+            for it, exp in zip(cfg["commands"], expected):
+                if "copy" in it:
+                    it["copy"].pop("memoryIdFrom"), it["copy"].pop("memoryIdTo")
+                    exp[4], exp[5] = "0", "0"
+                else:
+                    it["configureMemory"].pop("memoryId")
+                    exp[2] = "0"
+            spec.update(cfg=dict(cfg, containerOutputFile="out.sb3"), cfg_expected=expected, cfg_cli=n % 2 == 0, cfg_finding="C05-cfg-optional-memid",
+                        cfg_files={f.name: f.read_bytes().hex() for f in sorted(tmp.iterdir()) if f.is_file()})
+        finally:
+            shutil.rmtree(tmp, ignore_errors=True)
+        se.note(spec, cls="cfg-optional-memid")
+        run_config_case(ck, drv, se, spec)
     logging.disable(logging.NOTSET)
 
 
